@@ -53,7 +53,38 @@ def py_parse(text):
         return 'exc ' + n + ': ' + str(e)[:100]
 
 
+def long_expr(rng):
+    """a long card: 14–26 operands in a row outside any parentheses (literals, small groups, #n), with one or two
+    unions among them — the union binds looser than the blank, however long the row is"""
+    nsurf = rng.randint(2, 5)
+    def operand():
+        m = rng.random()
+        lit = lambda: ('s', rng.choice([1, -1]) * rng.randint(1, nsurf))  # noqa
+        if m < 0.75:
+            return lit()
+        if m < 0.9:
+            return ('u', lit(), lit())
+        return ('cc', rng.randint(1, 99)) if rng.random() < 0.5 else ('c', ('i', lit(), lit()))
+    n = rng.randint(14, 26)
+    ops = [operand() for _ in range(n)]
+    cuts = sorted(rng.sample(range(1, n), rng.choice([1, 1, 2])))
+    groups, prev = [], 0
+    for c_ in cuts + [n]:
+        g = ops[prev:c_]
+        e = g[0]
+        for x in g[1:]:
+            e = ('i', e, x)
+        groups.append(e)
+        prev = c_
+    e = groups[0]
+    for g in groups[1:]:
+        e = ('u', e, g)
+    return e
+
+
 def gen_expr(rng, allow_nested_cc=False):
+    if rng.random() < 0.06:
+        return long_expr(rng)
     nsurf = rng.randint(1, 5)
     refs = [('s', i) for i in range(1, nsurf + 1)] + [('f', 7, rng.randint(1, 6)), ('f', 8, 1)]
     t = G.gen_bsp(rng, refs, rng.randint(1, 4), 2)
